@@ -41,14 +41,22 @@ def all_spans(diag):
             yield from walk(sp, ch.get('message'), False)
 
 
-def run_verus(unit, rlimit=30, multiple_errors=20, extra=None, suffix=''):
+def write_unit(unit, suffix=''):
     os.makedirs(BUILD, exist_ok=True)
     path = os.path.join(BUILD, unit.name + suffix + '.rs')
-    with open(path, 'w') as f:
+    tmp = path + '.%d.tmp' % os.getpid()
+    with open(tmp, 'w') as f:
         f.write(unit.text())
+    os.replace(tmp, path)
+    return path
+
+
+def run_verus_path(path, rlimit=30, multiple_errors=20, extra=None, module=None):
     cmd = ['verus', path, '--error-format=json', '--output-json', '--time',
            '--multiple-errors', str(multiple_errors), '--rlimit', str(rlimit),
-           '--no-report-long-running']
+           '--no-report-long-running', '--num-threads', '4']
+    if module:
+        cmd += ['--verify-module', module]
     if extra:
         cmd += extra
     t0 = time.time()
@@ -56,7 +64,7 @@ def run_verus(unit, rlimit=30, multiple_errors=20, extra=None, suffix=''):
                        cwd=BUILD)
     wall = time.time() - t0
     res = dict(cmd=' '.join(cmd), wall_s=round(wall, 2), rc=p.returncode, diags=[],
-               summary=None, raw_stderr=p.stderr)
+               summary=None, raw_stderr=p.stderr, module=module)
     try:
         res['summary'] = json.loads(p.stdout) if p.stdout.strip() else None
     except Exception:
@@ -69,7 +77,12 @@ def run_verus(unit, rlimit=30, multiple_errors=20, extra=None, suffix=''):
                 continue
             if d.get('$message_type') == 'diagnostic':
                 res['diags'].append(d)
-    return res, path
+    return res
+
+
+def run_verus(unit, rlimit=30, multiple_errors=20, extra=None, suffix='', module=None):
+    path = write_unit(unit, suffix)
+    return run_verus_path(path, rlimit, multiple_errors, extra, module), path
 
 
 def classify(unit, res, gen_path):
@@ -95,7 +108,7 @@ def classify(unit, res, gen_path):
                         if all(unit.origin[k - 1][0] == 't' for k in range(line, gl + 1)):
                             best = (gl, cid, ctags, kind, f)
                 return best
-        for (gl, cid, ctags) in unit.tmpl_clauses:
+        for (gl, cid, ctags, _m) in unit.tmpl_clauses:
             if gl >= line and (best is None or gl < best[0]):
                 if all(unit.origin[k - 1][0] == 't' for k in range(line, gl + 1)) and gl - line < 40:
                     best = (gl, cid, ctags, 'tmpl', None)
@@ -165,4 +178,5 @@ def obligation_id(unit, rec):
     else:
         tail = 'auto:%s' % rec['kind']
     site = rec['src'] or rec['tmpl'] or ''
-    return '%s.%s#%s@%s' % (unit.name, addr, tail, site)
+    mod = rec['fn'].module if rec['fn'] is not None else (rec.get('module') or unit.name)
+    return '%s.%s#%s@%s' % (mod, addr, tail, site)
